@@ -299,6 +299,7 @@ func VerifDir() string {
 }
 
 func parentMain(spec *Spec) int {
+	spec.Race = RaceEnabled
 	start := time.Now()
 	args := os.Args[1:]
 	tier := "quick"
@@ -339,7 +340,11 @@ func parentMain(spec *Spec) int {
 		fmt.Fprintf(os.Stderr, "mkdtemp: %v\n", err)
 		return 2
 	}
-	defer os.RemoveAll(work)
+	if os.Getenv("VERIF_KEEP") == "" {
+		defer os.RemoveAll(work)
+	} else {
+		fmt.Println("work dir:", work)
+	}
 
 	nb := 1
 	if spec.Batches != nil {
@@ -451,12 +456,13 @@ func parentMain(spec *Spec) int {
 					r.Counters = map[string]int64{}
 				}
 				if spec.Race {
-					for _, v := range parseRaceLogs(racePath, b) {
+					for _, v := range append(parseRaceLogs(racePath, b), parseRaceFile(outPath, b, map[string]bool{})...) {
 						r.Violations = append(r.Violations, v)
 						r.Counters["race_reports"]++
 					}
 				}
-				if haveRes && r.Done && err == nil {
+				if haveRes && r.Done && (err == nil || spec.Race) {
+					// (a race-enabled child that completed exits 66 when reports were written; they were parsed above)
 					merge(&r)
 					return
 				}
@@ -695,9 +701,17 @@ func parseRaceLogs(prefix string, batch int) []Violation {
 	var out []Violation
 	seen := map[string]bool{}
 	for _, m := range matches {
+		out = append(out, parseRaceFile(m, batch, seen)...)
+	}
+	return out
+}
+
+func parseRaceFile(m string, batch int, seen map[string]bool) []Violation {
+	var out []Violation
+	{
 		b, err := os.ReadFile(m)
 		if err != nil {
-			continue
+			return nil
 		}
 		for _, blk := range bytes.Split(b, []byte("==================")) {
 			s := string(blk)
